@@ -754,7 +754,7 @@ func (h *harness) runBurst(name string, maxSize int64, stepNs int64, apps []app)
 	}
 	what := "clean"
 	if stepNs == 0 {
-		what = "clean, all rotations at one instant (outside the strictly-increasing-clock hypothesis: model diff only)"
+		what = "same-instant rotations (outside the strictly-increasing-clock hypothesis: model diff only)"
 	}
 	if stepNs > 0 && len(files) != rotations+1 {
 		var bn []string
@@ -766,10 +766,157 @@ func (h *harness) runBurst(name string, maxSize int64, stepNs int64, apps []app)
 			fmt.Sprintf("NewWriter(MaxSizeBytes=%d) at virtual t0=%dns; appends %dns apart: %s; files on disk after Close: %v = %s", maxSize, clockBase, stepNs, canon.String(), bn, strings.Join(fh, "|")))
 	}
 	h.recovery(lc, pl, files, what)
+	if stepNs > 0 && len(files) >= 2 {
+		// several rotated files sharing one modification time (coarse kernel tick / burst rotation):
+		// mtimes never decrease in name order, so recovery must still replay in append order.
+		n := len(files)
+		all := make([]int, n)
+		pairs := make([]int, n)
+		tail := make([]int, n)
+		for i := 0; i < n; i++ {
+			all[i] = 5
+			pairs[i] = i / 2
+			if i > 0 {
+				tail[i] = 3
+			}
+		}
+		for _, mt := range [][]int{all, pairs, tail} {
+			h.recoveryM(lc, pl, files, "clean", mt)
+		}
+	}
+	c.Case(canon.String(), true)
+}
+
+// runAlias: the caller re-uses its payload buffer right after Append* returns while the writer
+// goroutine is held back (hook VerifC06Hold: w.mu held, as in the seeded demo). The WAL must own
+// its bytes at return: every recovered payload equals the bytes passed at append time.
+func (h *harness) runAlias(name string, apps []app, recycled [][]byte) {
+	c := h.c
+	lc := &logCase{name: name, apps: apps}
+	h.dict = map[string]decRes{}
+	h.fab = nil
+	dir, err := os.MkdirTemp(scratch, "alias")
+	if err != nil {
+		panic(err)
+	}
+	defer os.RemoveAll(dir)
+	verifclock.Set(clockBase)
+	defer verifclock.Real()
+	w, err := wal.NewWriter(&wal.WriterConfig{WALDir: dir, SyncMode: wal.SyncModeAsync, Logger: nop})
+	if err != nil {
+		panic(err)
+	}
+	c.Op(fmt.Sprintf("new %d %d", 100*1024*1024, clockBase), "ok")
+	release := w.VerifC06Hold()
+	// a sacrificial first entry: the writer goroutine may dequeue it and block on the mutex
+	first := mp([]map[string]interface{}{{"first": 0}})
+	all := append([]app{{kind: "raw", payload: first}}, apps...)
+	var pl []placed
+	var canon strings.Builder
+	fmt.Fprintf(&canon, "%s;", name)
+	for i, a := range all {
+		t := clockBase + int64(i+1)*int64(time.Second)
+		verifclock.Set(t)
+		buf := append([]byte(nil), a.payload...) // the caller's buffer
+		var err error
+		if a.kind == "meta" {
+			err = w.AppendRawWithMeta(a.db, buf)
+		} else {
+			err = w.AppendRaw(buf)
+		}
+		if i > 0 { // the caller recycles its buffer after the call returned
+			copy(buf, recycled[i-1])
+		}
+		out := "ok"
+		if err != nil {
+			out = "err:" + err.Error()
+		}
+		c.Op(fmt.Sprintf("at %d", t), "ok")
+		c.Op(fmt.Sprintf("wq %d %s", t/1000, vh.Hex(a.full())), out)
+		fmt.Fprintf(&canon, "%s:%x:%x;", a.kind, a.db, a.payload)
+		p := placed{a: a}
+		db, inner := wal.ParseEnvelope(a.full(), "")
+		if d := h.declare(inner); d.kind != "n" {
+			o := obs{rows: d.kind == "r", tok: d.tok}
+			if !o.rows {
+				o.db = db
+			}
+			p.exp = &o
+		}
+		pl = append(pl, p)
+		if i > 0 {
+			h.declare(recycled[i-1])
+		}
+	}
+	release()
+	if err := w.Close(); err != nil {
+		panic(err)
+	}
+	names, _ := filepath.Glob(filepath.Join(dir, "*.wal"))
+	sort.Strings(names)
+	var files [][]byte
+	var fh []string
+	for _, n := range names {
+		b, _ := os.ReadFile(n)
+		files = append(files, b)
+		fh = append(fh, vh.Hex(b))
+	}
+	c.Op("files", strings.Join(fh, "|"))
+	c.Tag("alias")
+	for _, f := range files {
+		h.declareCandidates(f)
+		c.Op("base "+vh.Hex(f), fmt.Sprintf("ok len=%d", len(f)))
+		rr := realRead(f)
+		c.Op("r", rr.line)
+		h.reads++
+		// monitor: entry i of the file must be append i, byte for byte (observed through the decoder)
+		if rr.ok {
+			var want, got []string
+			for _, p := range pl {
+				if p.exp != nil {
+					want = append(want, p.exp.key())
+				}
+			}
+			for _, o := range rr.obs {
+				got = append(got, o.key())
+			}
+			for i := range want {
+				if i >= len(got) || got[i] != want[i] {
+					api := "AppendRaw"
+					k := 0
+					for _, p := range pl {
+						if p.exp == nil {
+							continue
+						}
+						if k == i && p.a.kind == "meta" {
+							api = "AppendRawWithMeta"
+						}
+						k++
+					}
+					g := "<missing>"
+					if i < len(got) {
+						g = got[i]
+					}
+					c.Fail("altered-entry:append-buffer-aliased:"+api,
+						fmt.Sprintf("%s returned, then the caller overwrote its payload buffer while the entry was still queued; recovery yields %s instead of the appended %s", api, g, want[i]),
+						fmt.Sprintf("writer goroutine held (w.mu); appends (kind:db:payload at call time) %s; each buffer overwritten after its call returned with %x; release, Close; file = %s; Reader.ReadAll -> %s; appended = %v",
+							canon.String(), recycled, vh.Hex(f), rr.line, want))
+					break
+				}
+			}
+		}
+	}
+	h.recovery(lc, pl, files, "clean")
 	c.Case(canon.String(), true)
 }
 
 func (h *harness) recovery(lc *logCase, pl []placed, files [][]byte, what string) {
+	h.recoveryM(lc, pl, files, what, nil)
+}
+
+// recoveryM: mt[i] (seconds) is the modification time given to file i (files are in name order);
+// nil = strictly increasing. Equal mtimes model a coarse kernel timestamp tick / burst rotation.
+func (h *harness) recoveryM(lc *logCase, pl []placed, files [][]byte, what string, mt []int) {
 	c := h.c
 	dir, err := os.MkdirTemp(scratch, "rec")
 	if err != nil {
@@ -783,7 +930,11 @@ func (h *harness) recovery(lc *logCase, pl []placed, files [][]byte, what string
 		h.declareCandidates(f)
 		p := filepath.Join(dir, fmt.Sprintf("arc-%04d.wal", i))
 		os.WriteFile(p, f, 0o600)
-		os.Chtimes(p, base.Add(time.Duration(i)*time.Second), base.Add(time.Duration(i)*time.Second))
+		m := i
+		if mt != nil {
+			m = mt[i]
+		}
+		os.Chtimes(p, base.Add(time.Duration(m)*time.Second), base.Add(time.Duration(m)*time.Second))
 		paths = append(paths, p)
 		fh = append(fh, vh.Hex(f))
 	}
@@ -819,8 +970,18 @@ func (h *harness) recovery(lc *logCase, pl []placed, files [][]byte, what string
 	if strings.HasPrefix(line, "panic:") {
 		line = "panic"
 	}
-	c.Op("rec "+strings.Join(fh, "|"), line)
-	c.Tag("recovery")
+	if mt == nil {
+		c.Op("rec "+strings.Join(fh, "|"), line)
+		c.Tag("recovery")
+	} else {
+		var ms []string
+		for _, m := range mt {
+			ms = append(ms, fmt.Sprint(m))
+		}
+		c.Op("recm "+strings.Join(ms, ",")+" "+strings.Join(fh, "|"), line)
+		c.Tag("recovery:mtimes")
+		what += fmt.Sprintf(" (file mtimes in name order, seconds: %v)", mt)
+	}
 	// monitor on the replayed callbacks
 	var appended []string
 	inSet := map[string]bool{}
@@ -846,7 +1007,7 @@ func (h *harness) recovery(lc *logCase, pl []placed, files [][]byte, what string
 	if !isSubseq(y, appended) {
 		c.Fail("order-violated:Recover", "recovery replayed entries duplicated or out of append order", replay)
 	}
-	if what == "clean" && strings.Join(y, ",") != strings.Join(appended, ",") {
+	if strings.HasPrefix(what, "clean") && !strings.Contains(what, "same-instant") && strings.Join(y, ",") != strings.Join(appended, ",") {
 		c.Fail("clean-recovery-incomplete:Recover", "recovery of undamaged files did not replay exactly the appended entries", replay)
 	}
 }
@@ -985,6 +1146,23 @@ func main() {
 		}
 		return as
 	}
+	// ---- (1c) ownership of appended bytes: buffers recycled right after Append* returns
+	{
+		a1 := colPayload("cpu", map[string]interface{}{"v": []interface{}{11}})
+		r1 := colPayload("gpu", map[string]interface{}{"v": []interface{}{99}})
+		a2 := mp([]map[string]interface{}{{"k": 1}})
+		r2 := mp([]map[string]interface{}{{"z": 7}})
+		a3 := colPayload("mem", map[string]interface{}{"v": []interface{}{3}})
+		r3 := make([]byte, len(a3)) // zeroed buffer
+		h.runAlias("alias-recycled-buffers", []app{
+			{kind: "meta", db: "tenant_a", payload: a1},
+			{kind: "raw", payload: a2},
+			{kind: "meta", db: "d", payload: a3},
+			{kind: "raw", payload: a1},
+		}, [][]byte{r1, r2, r3, r1})
+	}
+	// 15 rotated files (> 12: sort.Slice leaves insertion sort for pdqsort), with shared mtimes
+	h.runBurst("burst-15-files", 20, 1000, burstApps(14))
 	for _, step := range []int64{0, 1, 1000, 999_000, 1_000_000, 1_000_000_000} {
 		h.runBurst(fmt.Sprintf("burst-each-step-%dns", step), 20, step, burstApps(5))
 		h.runBurst(fmt.Sprintf("burst-pairs-step-%dns", step), 60, step, burstApps(6))
